@@ -854,6 +854,11 @@ impl Space for ZonedOffsetOptions {
             let got = call(|| ZonedDateTime::from_str_with_provider(&text, Disambiguation::Compatible, iopt, &crate::providers::ErrProvider));
             out.lockstep("ZonedDateTime::from_str (offset option)", &model, &got, |a, b| b.epoch_nanoseconds().as_i128() == *a, || vec![("string", text.clone()), ("offset_option", oname.to_string()), ("offset_sign", if otext.starts_with('-') { "negative" } else { "positive" }.to_string()), ("offset_has_fraction", otext.contains('.').to_string())]);
         }
+        // the same string as a relativeTo value: the written offset has to match (reject), to the minute when it is
+        // written to the minute
+        let model = zone.interpret(local, OffsetInput::Offset { ns: ons, minute_precision }, Disamb::Compatible, OffsetOpt::Reject).map_err(|_| ErrorKind::Range);
+        let got = call(|| temporal_rs::options::RelativeTo::try_from_str_with_provider(&text, &crate::providers::ErrProvider));
+        out.lockstep("RelativeTo::try_from_str (written offset must match)", &model, &got, |a, b| matches!(b, temporal_rs::options::RelativeTo::ZonedDateTime(z) if z.epoch_nanoseconds().as_i128() == *a), || vec![("string", text.clone()), ("offset_sign", if otext.starts_with('-') { "negative" } else { "positive" }.to_string()), ("offset_has_fraction", otext.contains('.').to_string())]);
     }
 }
 
